@@ -84,5 +84,15 @@ claim("C16", "E1", "exploration",
 claim("C09", "E3", "model_checking",
       "exhaustive enumeration of packet interleavings of session scripts (one connection, and two connections sharing a session id) with a differential oracle",
       "Every order-preserving interleaving of every ordered pair of 12 session scripts (and of sets of triples) is executed on the real reference server, multiplexed on one connection and spread over two connections that reuse the same session id; "
-      "each session's transcript of raw reply headers and decoded bodies must equal the transcript of the same script alone on a fresh server. Goroutine-level concurrency of connections is explored by the C15 scheduler harnesses.",
+      "each session's transcript of raw reply headers and decoded bodies must equal the transcript of the same script alone on a fresh server. Additionally every pair of 5 scripts runs on two concurrent connection goroutines under the controlled scheduler (engine E2), all schedules with at most 1 (quick) / 2 (thorough) deviations.",
       "scripts are fixed packet lists; more than three simultaneous sessions are not explored", "3/C09")
+claim("C15", "E2", "model_checking",
+      "stateless deviation-bounded exploration of goroutine interleavings of the instrumented real code under a controlled scheduler, with a per-schedule happens-before race oracle (Go race detector blinded to the scheduler)",
+      "Eight harnesses (concurrent connections on shared policy data, accept loop with opening/closing/refused connections, lookups concurrent with reloads, a consumer of a published configuration concurrent with the next load, multiplexed sessions, cancellation during serving) run the real sync/goroutine/channel code on a cooperative scheduler; "
+      "every schedule with at most 1 (quick) / 2 (thorough) deviations is executed under -race. A race report, a lookup that observes a mixture of two configurations, a published configuration that changes, a deadlock or a wrong reply is a violation.",
+      "schedules with more deviations than the bound and code not reached by the harnesses are not covered; ThreadSanitizer treats the prometheus atomics as synchronisation, so statement-level points are inserted where handlers touch shared policy data (types.go TrimSpace, stringy evaluate, loader.updates)", "3/C15")
+claim("C17", "E2", "model_checking",
+      "exhaustive enumeration of environment scripts x deviation-bounded schedules of the real Serve loop under a controlled scheduler with scripted listener/connections and virtual time",
+      "Every script of client connects, full/partial packets, read-deadline expiries, cancellation and accept-deadline expiries up to the length bound, followed by a fair closing phase, is run under every schedule within the deviation bound; "
+      "the event log must show a finite future deadline armed before every read, timed-out connections closed and never touched again, and Serve returning only after the listener is closed and every connection goroutine has finished (a state with no runnable thread is a deadlock).",
+      "scripts longer than the bound, more than two connections and schedules with more deviations than the bound are not explored; real timers are replaced by a virtual clock", "3/C17")
